@@ -505,7 +505,8 @@ Definition fs_step (cfg : fscfg) (st : fstate) (o : op) : fstate * obs * list ev
           match dest with
           | None => (st, OPanic, [])
           | Some d =>
-              let env := {| we_base := f_base cfg; we_names := fun i => stage_name (fs_ctr st + N.of_nat i);
+              (* (the staging file exists already: no name is drawn any more; [we_names] is only read by WCreate) *)
+              let env := {| we_base := f_base cfg; we_names := fun _ => last_comp sp;
                             we_dest := d; we_kind := WVec; we_empty_ok := q_empty_ok cfg;
                             we_exist_fails := q_mkdir_exist_fails cfg |} in
               let '(f1, r, log) := w_run (w_fuel env []) env (fs_fs st) (WClose sp None) [] in
